@@ -19,7 +19,7 @@ Proof.
   set (age := now - e_ls e).
   destruct (N.eqb p 6).
   - destruct (rst_seen e); destruct ((e_dsr e && fins_seen_dsr e) || fins_seen e);
-    destruct (established e || e_dsr e); destruct (e_rstts e); simpl;
+    destruct (established e || e_dsr e); destruct (rst_ts_set e); simpl;
     rewrite ?gtb_min;
     repeat match goal with |- context [?a >? ?b] => destruct (a >? b) eqn:? end; simpl; try reflexivity; try congruence.
   - destruct (N.eqb p 1 || N.eqb p 58); [|destruct (N.eqb p 17)]; simpl;
